@@ -130,8 +130,9 @@ class C03(SMSpec):
                     + [mkjob("S6", 5, 0, ext=False, rewrite=True, variant=3), mkjob("S2", 4, 0, ext=False, rewrite=True, variant=2)])
         else:
             hist = ([mkjob(s, 4, 2, variant=1) for s in ("S1", "S3", "S4", "S5")]
-                    + [mkjob(s, 3, 3, ext_per_iter=2, nsn_depth=2, variant=2) for s in ("S1", "S4")]
-                    + [mkjob(s, 8, 1, ext=False, variant=3) for s in ("S2", "S6", "S7")] + [mkjob("S8", 5, 2, variant=4)])
+                    + [mkjob(s, 2, 3, ext_per_iter=2, nsn_depth=2, variant=2) for s in ("S1", "S4")]
+                    + [self.twinjob("S1", 4, 0, variant=2), self.twinjob("S2", 5, 0, variant=1), mkjob("S6", 6, 0, ext=False, rewrite=True, variant=3)]
+                    + [mkjob(s, 8, 1, ext=False, variant=3) for s in ("S2", "S6", "S7")] + [mkjob("S8", 4, 2, variant=4)])
         for j in hist:
             j["kind"] = "hist"
         return sig + hist
